@@ -300,6 +300,31 @@ func scReplayBurnForceUnstake(tw *hx.TraceWriter, rep *hx.Report, seed int64) {
 	w.blocks(4)
 }
 
+// (j) governance raises pos/BlocksPerSession after a session's claim window has closed: the window
+// is judged with the CURRENT parameter and re-opens, while the block whose hash selects the leaf
+// to prove (computed with the SESSION's parameters) is known for several blocks.  The servicer
+// reads the required index from the committed chain, builds a tree with ONE really signed relay at
+// that position, claims `total` relays and proves them in the same block.
+func scWindowReopenedByGovernance(tw *hx.TraceWriter, rep *hx.Report, seed int64) {
+	c := baseCfg(seed)
+	c.B = 2
+	w := startChain(tw, rep, c, "j-claim-window-reopened-by-governance")
+	const S, total = 5, 9 // session 5..6; selecting block = 5 + 2*2 - 1 = 8; last claim height 9
+	w.to(9)
+	r := w.block(blockOpts{}, w.claimTx(kN1, kA1, "0001", S, 5, e5, kN1)) // 10: the window has closed
+	w.note("j:claim-after-window", r, 0)
+	w.block(blockOpts{}, w.paramInt(kOwner, "pos/BlocksPerSession", 4)) // 11
+	pred := indexFromHash(hashOfBlock(w.s, S+2*2-1), w.header(kA1, "0001", S), total)
+	cheat := evSpec{N: total, Var: 4, Cheat: int(pred)}
+	pre := w.s.Project().Supply
+	r = w.block(blockOpts{}, w.claimTx(kN1, kA1, "0001", S, total, cheat, kN1), w.proofTx(kN1, kA1, "0001", S, cheat, req())) // 12
+	w.note("j:claim-in-reopened-window", r, 0)
+	w.note("j:proof-with-one-signed-relay", r, 1)
+	rep.Extra["window_reopened"] = map[string]interface{}{"sessionH": S, "selectingBlock": S + 3, "claimHeight": w.s.Height, "predictedIndex": pred,
+		"total": total, "signedRelays": 1, "claim": r[0], "proof": r[1], "minted": w.s.Project().Supply - pre}
+	w.blocks(3)
+}
+
 type scenario struct {
 	name string
 	run  func(tw *hx.TraceWriter, rep *hx.Report, seed int64)
@@ -313,7 +338,7 @@ func scEmpty(tw *hx.TraceWriter, rep *hx.Report, seed int64) {
 
 var scenarios = []scenario{
 	{"a", scUnstakePendingClaim}, {"b", scAppTransferMidSession}, {"c", scMaxValidatorsJailed}, {"d", scStakeMinimumSlash},
-	{"e", scDaoPools}, {"f", scFeeMultiplier}, {"g", scFeatureUpgrade}, {"h", scMatureAtBoundary}, {"i", scReplayBurnForceUnstake},
+	{"e", scDaoPools}, {"f", scFeeMultiplier}, {"g", scFeatureUpgrade}, {"h", scMatureAtBoundary}, {"i", scReplayBurnForceUnstake}, {"j", scWindowReopenedByGovernance},
 	{"zempty", scEmpty},
 }
 
@@ -992,7 +1017,7 @@ func traceAll(out string, n, blocks int, scen string, split int) {
 	}
 	// long random chains first, so that they land in different files
 	for i := 0; i < n; i++ {
-		randomChain(next(), rep, i, blocks)
+		randomChain(next(), rep, i+int(hx.Seed()%3), blocks) // the seed also rotates the three configurations
 	}
 	for _, sc := range scenarios {
 		if (scen == "all" && !strings.HasPrefix(sc.name, "z")) || strings.Contains(","+scen+",", ","+sc.name+",") {
